@@ -52,10 +52,61 @@ def timesignal_generator():
     return obs, n, res.distinct
 
 
+def held_damage_calculator():
+    """HeldCalls.tla with a kept DamageCalculatorPRAM: lifetime / N_max_bearable(P_A) in any order; each answer as from a fresh object."""
+    import warnings, io, contextlib
+    import pandas as pd
+    from . import assess
+    from pylife.strength.fkm_nonlinear.assessment_nonlinear_standard import perform_fkm_nonlinear_assessment
+    res = tlc.run(os.path.join(SPEC, 'meanstress', 'MC_HeldCalls.tla'), os.path.join(SPEC, 'meanstress', 'MC_HeldCalls_calc.cfg'), dump=True, timeout=600)
+    if res.violated or res.error:
+        return ['MACHINERY HeldCalls (calc): %s %s' % (res.violated, (res.error or '')[:200])], 0, 0
+    SEQ = {'base1': [100, -200, 100, -250, 200, 0, 200, -200], 'base3': [120, -120, 200, -200, 240, -240, 120, -120, 280, -280, 80, -80, 240, -240, 320, -320, 320, -320]}
+
+    def fresh(o):
+        p = dict(assess.BASE)
+        p['R_m'] = 400.0
+        with warnings.catch_warnings(), contextlib.redirect_stdout(io.StringIO()):
+            warnings.simplefilter('ignore')
+            r = perform_fkm_nonlinear_assessment(pd.Series(p), pd.Series([float(v) for v in SEQ[o]]), calculate_P_RAM=True, calculate_P_RAJ=False)
+        dc = r['P_RAM_damage_calculator']
+        return dc, dc.get_lifetime_functions(r['assessment_parameters'])[0]
+
+    def ask(dc, f, what):
+        with warnings.catch_warnings():
+            warnings.simplefilter('ignore')
+            return float(np.asarray(dc.lifetime_n_cycles)) if what == 'lifetime' else float(np.asarray(f({'N50': 0.5, 'N1e5': 1e-5}[what])))
+    ref = {}
+    for o in SEQ:
+        for what in ('lifetime', 'N50', 'N1e5'):
+            dc, f = fresh(o)
+            ref[(o, what)] = ask(dc, f, what)
+    n, bad, first = 0, 0, None
+    for st in parse_dump(res.dump_path):
+        hist = [tuple(h) for h in st['hist']]
+        if len(hist) < 2:
+            continue
+        n += 1
+        dc, f = fresh(st['obj'])
+        for k, (_, what) in enumerate(hist):
+            got = ask(dc, f, what)
+            if abs(got - ref[(st['obj'], what)]) > 1e-9 * abs(ref[(st['obj'], what)]):
+                bad += 1
+                if first is None:
+                    first = {'calls': [h[1] for h in hist], 'failing_call': k + 1, 'answer': got, 'fresh_object_answers': ref[(st['obj'], what)]}
+                break
+    os.remove(res.dump_path)
+    obs = []
+    if bad:
+        obs.append('OBSERVATION DamageCalculatorPRAM: %d of %d call histories on a kept calculator answer differently from a fresh one: N_max_bearable(P_A) overwrites the '
+                   'N and D columns of the collective, so lifetime_n_cycles afterwards is the lifetime for the LAST requested failure probability. first: %s' % (bad, n, json.dumps(first)))
+    return obs, n, res.distinct
+
+
 def main():
     build.install()
     rc = 0
-    for name, fn in (('timesignal_generator', timesignal_generator),):
+    for name, fn in (('timesignal_generator', timesignal_generator), ('held_damage_calculator', held_damage_calculator)):
         obs, n, states = fn()
         for o in obs:
             print(o)
